@@ -52,8 +52,9 @@ theorem recoversPrefix_of_inv {ap : Tid → σ → Blk → σ} {g : Tid → σ} 
     have := h.conf_ok r hr
     rw [h.lc_eq] at this; exact this
   · intro i
-    show ((blocksOf s.btx).drop (trackerRound s.ttx)).foldl (ap i) (trackerData ap g s.ttx i) = (blocksOf s.btx).foldl (ap i) (g i)
-    rw [h.data_eq i, h.chain_eq, List.take_append_of_le_length hT, ← List.foldl_append, List.take_append_drop]
+    show ((blocksOf s.btx).drop (trackerRound (resetIfAhead s.btx s.ttx))).foldl (ap i) (trackerData ap g (resetIfAhead s.btx s.ttx) i)
+      = (blocksOf s.btx).foldl (ap i) (g i)
+    rw [resetIfAhead_of_le hT, h.data_eq i, h.chain_eq, List.take_append_of_le_length hT, ← List.foldl_append, List.take_append_drop]
 
 /-- **C09** for every trace and every crash point. -/
 theorem recover_prefix (ap : Tid → σ → Blk → σ) (g : Tid → σ) (es : List (Ev Blk)) (s : Sys Blk)
@@ -74,8 +75,13 @@ theorem recover_prefix_after_crash (ap : Tid → σ → Blk → σ) (g : Tid →
     (hrun : run (init Blk) es = some s) :
     let r := recover s
     r.lastCommitted = blockRound s.btx ∧ r.dbRound = trackerRound s.ttx ∧ r.chain = blocksOf s.btx ∧
-      RecoversPrefix ap g r.btx r.ttx r.chain r.confirmed :=
-  ⟨rfl, rfl, rfl, recoversPrefix_of_inv (inv_recover (inv_run (inv_init ap g) hrun))⟩
+      RecoversPrefix ap g r.btx r.ttx r.chain r.confirmed := by
+  have hi := inv_run (inv_init ap g) hrun
+  have hT : trackerRound s.ttx ≤ blockRound s.btx := by
+    have := hi.round_le; rw [hi.lc_eq] at this; exact this
+  refine ⟨rfl, ?_, rfl, recoversPrefix_of_inv (inv_recover hi)⟩
+  show trackerRound (resetIfAhead s.btx s.ttx) = trackerRound s.ttx
+  rw [resetIfAhead_of_le hT]
 
 /-- per-transaction atomicity of commitRound -/
 theorem accounts_round_atomic (ap : Tid → σ → Blk → σ) (g : Tid → σ) (es : List (Ev Blk)) (s : Sys Blk)
@@ -100,6 +106,20 @@ theorem scheduled_le_committed (es : List (Ev Blk)) (s : Sys Blk) (hrun : run (i
     simp only [hn] at hp
     rw [← hp.1]; exact h.round_le
 
+/-- the safety net of trackerDBInitialize, for ARBITRARY stores (no invariant needed): a tracker DB that is ahead of the block
+DB is reset, and OpenLedger then shows the replay of all durable blocks over genesis (this needs every block 1..B, i.e.
+nothing forgotten; it is why a `T > B` image still reopens with the right state in the harness) -/
+theorem open_ahead_replays_from_genesis (ap : Tid → σ → Blk → σ) (g : Tid → σ) (btx : List (BlockTxn Blk))
+    (ttx : List (TrackTxn Blk)) (h : blockRound btx < trackerRound ttx) (i : Tid) :
+    (openLedger ap g btx ttx).state i = replay ap g (blocksOf btx) i ∧ (openLedger ap g btx ttx).trackerRound = 0 := by
+  have hr : resetIfAhead btx ttx = [] := by
+    unfold resetIfAhead; rw [if_neg (by omega)]
+  constructor
+  · show ((blocksOf btx).drop (trackerRound (resetIfAhead btx ttx))).foldl (ap i) (trackerData ap g (resetIfAhead btx ttx) i) = _
+    rw [hr]; simp [trackerRound, trackerData, replay]
+  · show trackerRound (resetIfAhead btx ttx) = 0
+    rw [hr]; rfl
+
 /-! ### the tracker store at an earlier boundary -/
 
 /-- the tracker store at ANY of its earlier transaction boundaries, the block store at the crash instant -/
@@ -116,9 +136,9 @@ theorem recover_prefix_tracker_lag (ap : Tid → σ → Blk → σ) (g : Tid →
     rw [hi.lc_eq] at h1; exact h1
   obtain ⟨_, c2, c3, c4, _, _⟩ := recoversPrefix_of_inv hi
   refine ⟨hT, c2, c3, c4, rfl, fun i => ?_⟩
-  show ((blocksOf s.btx).drop (trackerRound (s.ttx.take j))).foldl (ap i) (trackerData ap g (s.ttx.take j) i)
-    = (blocksOf s.btx).foldl (ap i) (g i)
-  rw [h2 i, hi.chain_eq, List.take_append_of_le_length hT, ← List.foldl_append, List.take_append_drop]
+  show ((blocksOf s.btx).drop (trackerRound (resetIfAhead s.btx (s.ttx.take j)))).foldl (ap i)
+      (trackerData ap g (resetIfAhead s.btx (s.ttx.take j)) i) = (blocksOf s.btx).foldl (ap i) (g i)
+  rw [resetIfAhead_of_le hT, h2 i, hi.chain_eq, List.take_append_of_le_length hT, ← List.foldl_append, List.take_append_drop]
 
 /-! ### non-vacuity: a concrete history (blocks are numbers, the one tracker's state is the list of applied blocks) -/
 
@@ -177,5 +197,121 @@ theorem block_lag_unsafe : ∃ s, run (init Nat) demo2 = some s ∧
     have := hp.1
     simp only [h1.1, h1.2] at this
     omega
+
+/-! ### catchpoint bookkeeping: `recoverFromCrash` (model level only, PARTIAL)
+
+The full statement one would like is `recoverFromCrashIdempotentStatement`.  It is FALSE for the model as the code stands
+(`recoverFromCrash_not_idempotent`): a catchpoint whose label is written but whose file is not produced (files disabled, or
+the data file is missing) keeps its `unfinishedcatchpoints` row (createCatchpoint returns before DeleteUnfinishedCatchpoint);
+the first run then prunes the first-stage row it depends on, so a second run deletes the row instead.  Only the bookkeeping
+row differs — proved: the marker is always cleared; when the first run leaves no unfinished row the second run is the
+identity (`recoverFromCrash_idempotent_of_finished`); with the stored lookback 0 it is the identity anyway. -/
+
+def recoverFromCrashIdempotentStatement : Prop :=
+  ∀ (gen : Bool) (d lb : Nat) (c : CatchpointBook),
+    recoverFromCrash gen d lb (recoverFromCrash gen d lb c) = recoverFromCrash gen d lb c
+
+theorem finishCatchpoint_marker (gen : Bool) (lb r : Nat) (c : CatchpointBook) :
+    (finishCatchpoint gen lb r c).writingFirstStage = c.writingFirstStage := by
+  unfold finishCatchpoint
+  split
+  · split <;> rfl
+  · rfl
+
+theorem finishCatchpoints_marker (gen : Bool) (lb : Nat) (us : List Nat) (c : CatchpointBook) :
+    (us.foldl (fun c r => finishCatchpoint gen lb r { c with cpFiles := c.cpFiles.filter (· ≠ r) }) c).writingFirstStage
+      = c.writingFirstStage := by
+  induction us generalizing c with
+  | nil => rfl
+  | cons u us ih => simp only [List.foldl_cons]; rw [ih, finishCatchpoint_marker]
+
+theorem finishFirstStageAfterCrash_clears (gen : Bool) (d : Nat) (c : CatchpointBook) :
+    (finishFirstStageAfterCrash gen d c).writingFirstStage = false := by
+  unfold finishFirstStageAfterCrash
+  split
+  · rfl
+  · rename_i h; simpa using h
+
+/-- after recovery the "writing first stage info" marker is clear: the half-written data file is gone, its info recorded -/
+theorem recoverFromCrash_clears_marker (gen : Bool) (d lb : Nat) (c : CatchpointBook) :
+    (recoverFromCrash gen d lb c).writingFirstStage = false := by
+  unfold recoverFromCrash
+  simp only
+  split
+  · exact finishFirstStageAfterCrash_clears gen d c
+  · unfold pruneFirstStage finishCatchpointsAfterCrash
+    split
+    · show CatchpointBook.writingFirstStage (List.foldl _ _ _) = false
+      rw [finishCatchpoints_marker]; exact finishFirstStageAfterCrash_clears gen d c
+    · rw [finishCatchpoints_marker]; exact finishFirstStageAfterCrash_clears gen d c
+
+theorem finishFirstStageAfterCrash_idempotent (gen : Bool) (d : Nat) (c : CatchpointBook) :
+    finishFirstStageAfterCrash gen d (finishFirstStageAfterCrash gen d c) = finishFirstStageAfterCrash gen d c := by
+  have h := finishFirstStageAfterCrash_clears gen d c
+  generalize finishFirstStageAfterCrash gen d c = c' at h
+  unfold finishFirstStageAfterCrash
+  simp [h]
+
+theorem pruneFirstStage_idempotent (d lb : Nat) (c : CatchpointBook) :
+    pruneFirstStage d lb (pruneFirstStage d lb c) = pruneFirstStage d lb c := by
+  unfold pruneFirstStage
+  split
+  · rename_i h
+    simp only
+    congr 1
+    · simp [List.filter_filter]
+    · rw [List.filter_filter]
+      apply List.filter_congr
+      intro x _
+      simp only [List.mem_filter, decide_eq_true_eq]
+      by_cases hx : x ∈ c.firstStage ∧ x ≤ d - lb
+      · simp [hx]
+      · have : ¬ ((x ∈ c.firstStage ∧ d - lb < x) ∧ x ≤ d - lb) := by omega
+        simp [hx, this]
+  · rfl
+
+/-- if the first recovery completes every unfinished catchpoint, recovering again changes nothing -/
+theorem recoverFromCrash_idempotent_of_finished (gen : Bool) (d lb : Nat) (c : CatchpointBook)
+    (hfin : (recoverFromCrash gen d lb c).unfinished = []) :
+    recoverFromCrash gen d lb (recoverFromCrash gen d lb c) = recoverFromCrash gen d lb c := by
+  have hm := recoverFromCrash_clears_marker gen d lb c
+  by_cases hlb : lb = 0
+  · subst hlb
+    simp only [recoverFromCrash, if_true]
+    exact finishFirstStageAfterCrash_idempotent gen d c
+  · have hR : recoverFromCrash gen d lb c
+        = pruneFirstStage d lb (finishCatchpointsAfterCrash gen lb (finishFirstStageAfterCrash gen d c)) := by
+      simp [recoverFromCrash, hlb]
+    generalize hc' : recoverFromCrash gen d lb c = c' at hm hfin hR
+    have h1 : finishFirstStageAfterCrash gen d c' = c' := by
+      unfold finishFirstStageAfterCrash; simp [hm]
+    have h2 : finishCatchpointsAfterCrash gen lb c' = c' := by
+      unfold finishCatchpointsAfterCrash; rw [hfin]; rfl
+    show recoverFromCrash gen d lb c' = c'
+    simp only [recoverFromCrash, hlb, if_false, h1, h2]
+    rw [hR]; exact pruneFirstStage_idempotent d lb _
+
+/-- a concrete instance of the hypothesis: files are generated, dbRound 20, lookback 4; the first stage of round 20 was
+interrupted and the catchpoint of round 20 (accounts round 16) is unfinished; recovery completes both -/
+def cpDemo : CatchpointBook :=
+  { writingFirstStage := true, firstStage := [16], unfinished := [20], labels := [16], last := some 16, dataFiles := [16], cpFiles := [16] }
+
+example : (recoverFromCrash true 20 4 cpDemo).unfinished = [] ∧ (recoverFromCrash true 20 4 cpDemo).last = some 20 ∧
+    (recoverFromCrash true 20 4 cpDemo).cpFiles = [20, 16] ∧ (recoverFromCrash true 20 4 cpDemo).firstStage = [20] := by decide
+
+/-- the unrestricted statement does not hold for the code as it stands (catchpoint tracking without files: `gen = false`) -/
+theorem recoverFromCrash_not_idempotent : ¬ recoverFromCrashIdempotentStatement := by
+  intro h
+  have := h false 20 4 { cpDemo with writingFirstStage := false }
+  revert this
+  decide
+
+/-- … but what differs is only the bookkeeping row: labels, last label, first-stage rows and files agree (this instance) -/
+example :
+    let c := { cpDemo with writingFirstStage := false }
+    let r1 := recoverFromCrash false 20 4 c
+    let r2 := recoverFromCrash false 20 4 r1
+    r1.unfinished = [20] ∧ r2.unfinished = [] ∧ r2.labels = r1.labels ∧ r2.last = r1.last ∧ r2.firstStage = r1.firstStage ∧
+      r2.dataFiles = r1.dataFiles ∧ r2.cpFiles = r1.cpFiles := by decide
 
 end Props.C09
